@@ -201,8 +201,41 @@ def r8_shared_initial_state(ctx):
         rep.ok("C09.R8", "cardillo/", "no constructor stores a mutable default of q0 / u0 uncopied and System re-binds the contributions' initial state")
 
 
+def r10_initial_time(ctx, rule="C09.R10"):
+    """The default reference length is `subsystem.l(subsystem.t0, subsystem.q0)`: the time at which the (possibly moving) attachment points
+    are evaluated.  `t0` of a contribution is bound by System.assemble (`contr.t0 = self.t0`); an interaction that is only the subsystem of
+    a force law is NOT a contribution and has to take the initial time from one of its own subsystems.  Every store to `self.t0` in a
+    supported scalar-interface subsystem (and its bases) must therefore read a `.t0` - a literal or anything else pins the reference length
+    to a time that is not the system's initial time."""
+    rep = ctx.rep
+    model = ctx.model
+    ext = protocol.external_setters(ctx)
+    for sub in tables.SCALAR_SUBSYSTEMS:
+        ci = model.cls(sub)
+        view = protocol.ClassView(ctx, ci)
+        C = f"{ci.rel}:{sub}"
+        sts = view.stores("t0")
+        bad = False
+        for (cc, st) in sts:
+            reads = [n for n in ast.walk(st.value) if isinstance(n, ast.Attribute) and n.attr == "t0"] if getattr(st, "value", None) is not None else []
+            if reads:
+                rep.ok(rule, C, f"{cc.qual}.{st.method}: `{norm_src(st.node)[:80]}` takes the initial time from a subsystem")
+            else:
+                bad = True
+                rep.bad(rule, C, st.node, f"`{norm_src(st.node)[:80]}` in {cc.qual}.{st.method} binds the initial time to something that is not the initial time of a subsystem / the system: "
+                        "a force law without explicit l_ref evaluates its reference length at that time, so with System(t0 != 0) and a moving attachment frame the element is "
+                        "pre-stressed at the initial configuration", f"{cc.rel}:{st.node.lineno}")
+        if not sts:
+            if "t0" in ext:
+                rep.ok(rule, C, "no own store of t0: bound by System.assemble only (the class must be a contribution of the system)")
+            else:
+                rep.bad(rule, C, sub, "t0 is neither stored by the class nor bound by System.assemble", f"{ci.rel}:{ci.node.lineno}")
+
+
 def run(ctx):
     rep = ctx.rep
+    rep.rule("C09.R10", "initial-time provenance: a scalar-interface subsystem takes `t0` (the time at which the default l_ref is evaluated) from a subsystem or from System.assemble, never from a literal", 2)
+    r10_initial_time(ctx)
     rep.rule("C09.R9", "the default l_ref is evaluated on the RAW q0 while forces use the projected System.q0: a rigid body's pose must not depend on the length of its quaternion (normalising rotation kernel)", 4)
     from .c11 import normalising_rule
     normalising_rule(ctx, "C09.R9", lambda rel: rel == "cardillo/discrete/rigid_body.py", 4)
@@ -509,4 +542,13 @@ NEUTRAL = [
          old="        return self.force(t, q, u) * self.subsystem.W_l(t, q[1:]).reshape(self._nu)", new="        return self.force(t, q, u) * self.subsystem.W_l(t, q[1:]).ravel()"),
     dict(id="c09-n1", canary=True, what="Spring energy written with a local", file=SP,
          old="        return 0.5 * self.k * (l - self.l_ref) ** 2", new="        dl = l - self.l_ref\n        return 0.5 * self.k * dl**2"),
+]
+
+MUTANTS += [
+    dict(id="c09-r10-seed", canary=True, what="[seeded by sub-agent] TwoPointInteraction pins t0 = 0.0 in the constructor path instead of taking it from subsystem1", file='cardillo/interactions/two_point_interaction.py',
+         old="        self.t0 = self.subsystem1.t0\n", new="        self.t0 = 0.0\n", expect="C09.R10"),
+]
+NEUTRAL += [
+    dict(id="c09-n-r10", canary=True, what="TwoPointInteraction takes t0 from subsystem2 (same system, same initial time)", file='cardillo/interactions/two_point_interaction.py',
+         old="        self.t0 = self.subsystem1.t0\n", new="        self.t0 = self.subsystem2.t0\n"),
 ]
